@@ -9,6 +9,32 @@ import (
 	"github.com/taskctl/taskctl/pkg/task"
 )
 
+// checkPipelineInclusion rejects pipelines that include themselves, directly or
+// through other pipelines: scheduling such a pipeline would never end. The
+// inclusion relation is fed to an execution graph, which refuses cycles.
+func checkPipelineInclusion(pipelines map[string][]*stageDefinition) error {
+	inclusion, err := scheduler.NewExecutionGraph()
+	if err != nil {
+		return err
+	}
+
+	for name, stages := range pipelines {
+		var included []string
+		for _, def := range stages {
+			if def != nil && def.Task == "" {
+				included = append(included, def.Pipeline)
+			}
+		}
+
+		err = inclusion.AddStage(&scheduler.Stage{Name: name, DependsOn: included})
+		if err != nil {
+			return fmt.Errorf("pipeline %s includes itself: %w", name, err)
+		}
+	}
+
+	return nil
+}
+
 func buildPipeline(g *scheduler.ExecutionGraph, stages []*stageDefinition, cfg *Config) (*scheduler.ExecutionGraph, error) {
 	for _, def := range stages {
 		if def == nil {
